@@ -100,12 +100,14 @@ var rR11c = RuleRef{Name: "R11c", Doc: "the request parser closes its result cha
 			}
 		}
 	}
-	of := c.orderFlow(parse, nil, true, "SEND", "ERR|Err")
 	n := 0
+	seenFn := map[*ssa.Function]bool{}
 	for _, fn := range append([]*ssa.Function{parse}, helperScope(parse, 2)...) {
-		if fn != parse && pkgRel(fn) != "resp" {
+		if (fn != parse && pkgRel(fn) != "resp") || seenFn[fn] {
 			continue
 		}
+		seenFn[fn] = true
+		of := c.orderFlow(fn, nil, true, "SEND", "ERR|Err")
 		for _, b := range fn.Blocks {
 			for _, in := range b.Instrs {
 				call, ok := in.(*ssa.Call)
@@ -117,14 +119,11 @@ var rR11c = RuleRef{Name: "R11c", Doc: "the request parser closes its result cha
 					continue
 				}
 				n++
-				good := false
-				if fn == parse {
-					states, live := of.States(in)
-					good = live
-					for _, st := range states {
-						if !st["SEND"] && !st["ERR|Err"] {
-							good = false
-						}
+				states, live := of.States(in)
+				good := live
+				for _, st := range states {
+					if !st["SEND"] && !st["ERR|Err"] {
+						good = false
 					}
 				}
 				c.Add("R11c", fnName(fn), fmt.Sprintf("close #%d of the result channel follows the end-of-stream report or a done context", n), in.Pos(), good || !relies, "a path closes the channel with the context still live and nothing sent: the handler's receive yields nil")
@@ -1086,4 +1085,61 @@ func lookupOfGlobalMap(v ssa.Value) (*ssa.Global, ssa.Value) {
 		return nil, nil
 	}
 	return g, lk.Index
+}
+
+// funcArgBindings: which functions (closures or named functions) are passed for which function-typed parameter of a
+// first-party function at its static call sites; argOnly holds the closures whose every use is such an argument (they
+// are only ever run by the functions they are handed to).
+func (c *C) funcArgBindings() (map[*ssa.Parameter][]*ssa.Function, map[*ssa.Function]bool) {
+	if c.fab != nil {
+		return c.fab, c.fabArgOnly
+	}
+	c.fab = map[*ssa.Parameter][]*ssa.Function{}
+	c.fabArgOnly = map[*ssa.Function]bool{}
+	notOnly := map[*ssa.Function]bool{}
+	for _, fn := range c.P.allFuncs(firstPartyPkgs...) {
+		for _, b := range fn.Blocks {
+			for _, in := range b.Instrs {
+				mc, ok := in.(*ssa.MakeClosure)
+				if !ok || mc.Referrers() == nil {
+					continue
+				}
+				g, _ := mc.Fn.(*ssa.Function)
+				if g == nil {
+					continue
+				}
+				for _, r := range *mc.Referrers() {
+					call, ok := r.(*ssa.Call)
+					if _, isDbg := r.(*ssa.DebugRef); isDbg {
+						continue
+					}
+					if !ok || call.Call.Value == ssa.Value(mc) {
+						notOnly[g] = true
+						continue
+					}
+					cf := callee(call)
+					if cf == nil || !firstParty(cf) || cf.Blocks == nil {
+						notOnly[g] = true
+						continue
+					}
+					bound := false
+					for i, a := range call.Call.Args {
+						if a == ssa.Value(mc) && i < len(cf.Params) {
+							c.fab[cf.Params[i]] = append(c.fab[cf.Params[i]], g)
+							bound = true
+						}
+					}
+					if !bound {
+						notOnly[g] = true
+					} else if !notOnly[g] {
+						c.fabArgOnly[g] = true
+					}
+				}
+			}
+		}
+	}
+	for g := range notOnly {
+		delete(c.fabArgOnly, g)
+	}
+	return c.fab, c.fabArgOnly
 }
